@@ -602,6 +602,8 @@ Definition holds_C19_custody (d bal : Z) (gs : list gauge) (xs : list ext) : boo
   forallb (fun x => negb (x_denom x =? d) || (0 <=? x_avail x)) xs && (owed_active d gs xs <=? bal).
 
 (* payout_i <= pro-rata share * (1 + 10^-12):  payout * total * 10^12 <= coins * s_i * (10^12 + 1)
-   (total, s_i scaled Decs, their ratio is scale-free; coins integer) *)
+   (total, s_i scaled Decs, their ratio is scale-free; coins integer); when nobody has an eligible
+   value (total = 0) there is no pro-rata share and nothing may be paid *)
 Definition holds_C19_share (coins total s payout : Z) : bool :=
-  (0 <=? payout) && (payout * total * 1000000000000 <=? coins * s * 1000000000001).
+  (0 <=? payout) &&
+  (if total <=? 0 then payout =? 0 else payout * total * 1000000000000 <=? coins * s * 1000000000001).
